@@ -100,6 +100,8 @@ pub struct VhostUserHandler<T: VhostUserBackend> {
     queues_per_thread: Vec<u64>,
     mappings: Vec<AddrMapping>,
     atomic_mem: GM<T::Bitmap>,
+    // Log memory set by SET_LOG_BASE, applied to memory regions created afterwards.
+    logmem: Option<Arc<MmapLogReg>>,
     vrings: Vec<T::Vring>,
     #[cfg(feature = "postcopy")]
     uffd: Option<Uffd>,
@@ -161,6 +163,7 @@ where
             queues_per_thread,
             mappings: Vec::new(),
             atomic_mem,
+            logmem: None,
             vrings,
             #[cfg(feature = "postcopy")]
             uffd: None,
@@ -275,6 +278,25 @@ where
     }
 }
 
+impl<T: VhostUserBackend> VhostUserHandler<T>
+where
+    T::Bitmap: BitmapReplace + NewBitmap + Clone,
+{
+    /// If dirty page logging has been set up by SET_LOG_BASE, keep it in force for a memory
+    /// region that is created afterwards.
+    fn enable_region_logging(&self, region: &GuestRegionMmap<T::Bitmap>) -> VhostUserResult<()> {
+        if let Some(logmem) = &self.logmem {
+            let bitmap = <<T as VhostUserBackend>::Bitmap as BitmapReplace>::InnerBitmap::new(
+                region,
+                Arc::clone(logmem),
+            )
+            .map_err(VhostUserError::ReqHandlerError)?;
+            (*region).bitmap().replace(bitmap);
+        }
+        Ok(())
+    }
+}
+
 impl<T: VhostUserBackend> VhostUserBackendReqHandlerMut for VhostUserHandler<T>
 where
     T::Bitmap: BitmapReplace + NewBitmap + Clone,
@@ -374,6 +396,7 @@ where
             .ok_or(VhostUserError::ReqHandlerError(
                 io::ErrorKind::InvalidInput.into(),
             ))?;
+            self.enable_region_logging(&guest_region)?;
             mappings.push(AddrMapping {
                 #[cfg(feature = "postcopy")]
                 local_addr: guest_region.as_ptr() as u64,
@@ -678,6 +701,7 @@ where
                 io::ErrorKind::InvalidInput.into(),
             ))?,
         );
+        self.enable_region_logging(&guest_region)?;
 
         let addr_mapping = AddrMapping {
             #[cfg(feature = "postcopy")]
@@ -840,6 +864,7 @@ where
         for (region, bitmap) in bitmaps {
             (*region).bitmap().replace(bitmap);
         }
+        self.logmem = Some(logmem);
 
         Ok(())
     }
